@@ -1,6 +1,7 @@
 (* C19 - containers behave as their abstract data types.  Statements only; proofs are in Dsa/*_proofs.v *)
 From CAres.Dsa Require Import Array Array_proofs.
 From CAres.Gen Require Import Consts.
+From Coq Require Import Permutation Sorted.
 
 (* ===================== array (src/lib/dsa/ares_array.c) ===================== *)
 
@@ -9,9 +10,11 @@ From CAres.Gen Require Import Consts.
    removed members, reads, lengths), ends with the list as its members, and never runs into C
    undefined behaviour.  "Keeps sequence order for inserts and removals at any index and stays
    usable after any removal pattern". *)
-Theorem C19_array_run_refines : forall ops : list arr_op,
-  let '(a', rs) := arr_run arr_create (map (fun o => (true, o)) ops) in
-  let '(l', rs') := aspec_run [] ops in
+Theorem C19_array_run_refines : forall (qsort : list Z -> list Z),
+  (forall l, Permutation (qsort l) l) ->      (* the C library's qsort permutes its input *)
+  forall ops : list arr_op,
+  let '(a', rs) := arr_run qsort arr_create (map (fun o => (true, o)) ops) in
+  let '(l', rs') := aspec_run qsort [] ops in
   rs = rs' /\ arr_abs a' = l' /\ ~ In RUB rs.
 Proof. exact arr_run_refines. Qed.
 Print Assumptions C19_array_run_refines.
@@ -19,11 +22,26 @@ Print Assumptions C19_array_run_refines.
 (* With an allocator that may refuse (one answer per call): the only deviation from the list is
    an in-range insert that reports ARES_ENOMEM and changes nothing, and only when the allocator
    refused.  (Container-level half of C14 for the array.) *)
-Theorem C19_array_run_alloc_refines : forall ops : list (bool * arr_op),
-  let '(a', rs) := arr_run arr_create ops in
-  aspec_trace [] ops rs (arr_abs a') /\ ~ In RUB rs.
+Theorem C19_array_run_alloc_refines : forall (qsort : list Z -> list Z),
+  (forall l, Permutation (qsort l) l) ->
+  forall ops : list (bool * arr_op),
+  let '(a', rs) := arr_run qsort arr_create ops in
+  aspec_trace qsort [] ops rs (arr_abs a') /\ ~ In RUB rs.
 Proof. exact arr_run_alloc_refines. Qed.
 Print Assumptions C19_array_run_alloc_refines.
+
+(* ares_array_sort: qsort is applied to exactly the members and the result stays in place; with
+   a qsort that sorts, the members end up sorted by cmp and are the same multiset. *)
+Theorem C19_array_sort : forall (qsort : list Z -> list Z) (cmp : Z -> Z -> Z),
+  (forall l, Permutation (qsort l) l) ->
+  (forall l, Sorted (fun x y => (cmp x y <= 0)%Z) (qsort l)) ->
+  forall a, arr_inv_full a ->
+  exists a', arr_sort qsort a = Ok a' /\ arr_inv_full a'
+             /\ arr_abs a' = qsort (arr_abs a)
+             /\ Sorted (fun x y => (cmp x y <= 0)%Z) (arr_abs a')
+             /\ Permutation (arr_abs a') (arr_abs a).
+Proof. exact (fun qsort cmp Hp => arr_sort_full qsort Hp cmp). Qed.
+Print Assumptions C19_array_sort.
 
 (* Per operation, on any state satisfying the invariant (established by create, preserved). *)
 Theorem C19_array_insert : forall ok a idx v,
@@ -59,8 +77,10 @@ Proof. exact arr_at_refines. Qed.
 Print Assumptions C19_array_at_refines.
 
 (* ares_array_finish after any sequence of calls hands out exactly the list, in order. *)
-Theorem C19_array_run_finish : forall ops : list arr_op,
-  arr_finish (fst (arr_run arr_create (map (fun o => (true, o)) ops))) = Ok (fst (aspec_run [] ops)).
+Theorem C19_array_run_finish : forall (qsort : list Z -> list Z),
+  (forall l, Permutation (qsort l) l) ->
+  forall ops : list arr_op,
+  arr_finish (fst (arr_run qsort arr_create (map (fun o => (true, o)) ops))) = Ok (fst (aspec_run qsort [] ops)).
 Proof. exact arr_run_finish. Qed.
 Print Assumptions C19_array_run_finish.
 
@@ -802,3 +822,41 @@ Theorem C19_buf_fetch_bytes_agrees_generated : forall b len,
       = Ok (st, cb_off b').
 Proof. exact buf_fetch_bytes_agrees_generated. Qed.
 Print Assumptions C19_buf_fetch_bytes_agrees_generated.
+
+(* ---- array / skip list: hand model = text generated from the C source, where the function
+   fits the translator (gen/leaf.d/C19_dsa.txt lists what does not and why) ---- *)
+From CAres.Dsa Require Import Dsa_gen_agree SList.
+
+(* ares_array_set_size: same status and final alloc_cnt for every size, array and allocator
+   answer (ares_round_up_pow2's value as the model computes it; newptr = ares_realloc_zero's
+   non-NULL answer) *)
+Theorem C19_array_set_size_agrees_generated : forall (ok : bool) (a : arr) (size : nat) (msz ptr newptr : Z),
+  newptr <> 0%Z ->
+  exists st alloc' ptr',
+    c_ares_array_set_size (Z.of_nat size) (Z.of_nat (a_cnt a)) (Z.of_nat (round_up_pow2 size))
+                          (Z.of_nat (alloc_cnt a)) msz (if ok then newptr else 0%Z) ptr
+      = Ok (st, alloc', ptr') /\
+    arr_status (arr_set_size ok a size) = Some st /\
+    alloc' = Z.of_nat (match arr_set_size ok a size with Ok a' => alloc_cnt a' | _ => alloc_cnt a end) /\
+    a_cnt (match arr_set_size ok a size with Ok a' => a' | _ => a end) = a_cnt a.
+Proof. exact arr_set_size_agrees_generated. Qed.
+Print Assumptions C19_array_set_size_agrees_generated.
+
+Theorem C19_array_remove_last_agrees_generated : forall a : arr,
+  arr_status (arr_remove_at a (a_cnt a - 1)) <> None ->
+  exists st,
+    arr_status (arr_remove_last a) = Some st /\
+    forall st_at, arr_status (arr_remove_at a (a_cnt a - 1)) = Some st_at ->
+      c_ares_array_remove_last (Z.of_nat (arr_len a)) st_at = Ok st.
+Proof. exact arr_remove_last_agrees_generated. Qed.
+Print Assumptions C19_array_remove_last_agrees_generated.
+
+(* ares_slist_max_level, the bound on the level a new skip-list node may get *)
+Theorem C19_slist_max_level_agrees_generated : forall cnt levels : nat,
+  (Z.of_nat cnt + 1 < 2 ^ 64)%Z ->
+  c_ares_slist_max_level (Z.of_nat cnt) (Z.of_nat levels)
+                         (Z.of_nat (sl_round_up_pow2 (cnt + 1)))
+                         (Z.of_nat (sl_log2 (sl_round_up_pow2 (cnt + 1))))
+  = Ok (Z.of_nat (sl_max_level cnt levels)).
+Proof. exact sl_max_level_agrees_generated. Qed.
+Print Assumptions C19_slist_max_level_agrees_generated.
